@@ -1,0 +1,16 @@
+//go:build verif && amd64 && gc && !purego
+
+package argon2
+
+import "golang.org/x/sys/cpu"
+
+// VerifCPUHasSSE4 reports whether blamkaSSE4 can run here.
+func VerifCPUHasSSE4() bool { return cpu.X86.HasSSE41 }
+
+// VerifSetSSE4 selects blamkaSSE4 (true) or the generic BlaMka inside the SSE2
+// block processing (false); returns the previous setting.
+func VerifSetSSE4(on bool) (prev bool) {
+	prev = useSSE4
+	useSSE4 = on && cpu.X86.HasSSE41
+	return prev
+}
